@@ -198,3 +198,88 @@ def fresh_files(c, slabs, nh, cleaned, concrete=None, nprev=2, lc=False):
             cd['N_total']
             files[f'/clean/cleaned_halo_info/cleaned_halo_info_{s:03d}.asdf'] = {'header': dict(hdr), 'data': cd}
     return files, hdr
+
+
+# ----------------------------------------------------------------------------------------------
+# replay / validation on real ASDF files (checks/realcat.py writes the catalogue)
+
+READER_REPLAY = '''
+sys.path.insert(0, {verif!r})
+import tempfile, warnings
+from checks import realcat
+from abacusnbody.data.compaso_halo_catalog import CompaSOHaloCatalog
+warnings.simplefilter('ignore')
+m = {m!r}
+case = {case!r}
+info = {info!r}
+pid = {pid!r}
+cleaned, subs, convert = case['cleaned'], case['subsamples'], case['convert_units']
+bad = []
+with tempfile.TemporaryDirectory() as d:
+    conc, subsA = {{}}, None
+    if subs:
+        conc = {{0: dict(npstartA=np.array([0, 2], dtype=np.uint64), npoutA=np.array([2, 1], dtype=np.uint32),
+                        npstartA_merge=np.array([0, 1], dtype=np.int64), npoutA_merge=np.array([1, 0], dtype=np.uint32), N_total=np.array([5, 7], dtype=np.uint32))}}
+        subsA = {{0: {{'A': (np.arange(9, dtype=np.int32).reshape(3, 3) * 4096, np.arange(3, dtype=np.int32).reshape(1, 3) * 8192, None, None)}}}}
+    gdir = realcat.write_catalog(d, m, slabs=(0,), nh=2, cleaned=cleaned, subsA=subsA, concrete=conc)
+    kw = dict(cleaned=cleaned, convert_units=convert, subsamples=dict(A=True, pos=True) if subs else False)
+    def load(fields):
+        try:
+            return CompaSOHaloCatalog(gdir, fields=fields, **kw), None
+        except Exception as ex:
+            return None, ex
+    req = info.get('request')
+    got, err = load(req)
+    if err is not None:
+        bad.append(f'fields={{req!r}} (cleaned={{cleaned}}, subsamples={{subs}}): raised {{type(err).__name__}}: {{err}}')
+    elif info.get('column'):
+        col = info['column']
+        o = 'N' if (cleaned and col == 'N_total') else col
+        ref, rerr = load('all')
+        if rerr is None and o in ref.halos.colnames and o in got.halos.colnames:
+            a, b = np.asarray(got.halos[o], dtype=float), np.asarray(ref.halos[o], dtype=float)
+            if a.shape != b.shape or not np.allclose(a, b, rtol=1e-5, atol=0, equal_nan=True):
+                bad.append(f'column {{o}} loaded through fields={{req!r}} = {{a.tolist()}} but {{b.tolist()}} under fields="all"')
+        elif o not in got.halos.colnames:
+            bad.append(f'column {{o}} missing from the result of fields={{req!r}}: {{got.halos.colnames}}')
+print('case', case, 'request', info.get('request'), 'column', info.get('column'))
+for b_ in bad: print('  ', b_)
+sys.exit(1 if bad else 0)
+'''
+
+
+def replay_reader(e, path, pid):
+    info = dict(e['info'])
+    case = info.pop('case', {})
+    body = READER_REPLAY.format(verif=harness.VERIF, m=e.get('model', {}), case=case, info=info, pid=pid)
+    return common.write_replay(path, body)
+
+
+def validate_reader():
+    """The real constructor on a real two-halo catalogue written to disk vs the engine on the same raw
+    values (concrete mode): x_com, v_com, r25_com, sigmav3d_com, N."""
+    import tempfile
+    from checks import realcat
+    import warnings
+    n = 0
+    with tempfile.TemporaryDirectory() as d, warnings.catch_warnings():
+        warnings.simplefilter('ignore')
+        gdir = realcat.write_catalog(d, {}, slabs=(0,), nh=2, cleaned=False, box=2000.0, velz=1234.0)
+        fields = ['N', 'x_com', 'v_com', 'r25_com', 'sigmav3d_com', 'sigman_L2com']
+        real = chc.CompaSOHaloCatalog(gdir, cleaned=False, fields=fields)
+        import asdf as real_asdf
+        with real_asdf.open(f'{gdir}/halo_info/halo_info_000.asdf') as af:
+            raw = {k: real_np.array(af['data'][k]) for k in af['data']}
+
+        def body():
+            c = ctx()
+            hdr = {'BoxSize': 2000.0, 'VelZSpace_to_kms': 1234.0, 'SimName': 'sim', 'Redshift': 0.5, 'ppd': 8}
+            install({'/cat/halo_info/halo_info_000.asdf': {'header': hdr, 'data': {k: arrays.as_sarr(v) for k, v in raw.items()}}})
+            cat = construct('/cat', [0], False, fields=fields)
+            return {k: [float(x) for x in real_np.asarray(cat.halos[k]).ravel()] for k in fields}
+        res = core.explore(body)
+        assert len(res) == 1 and res[0].exc is None, (res[0].exc, res[0].events)
+        for k in fields:
+            assert real_np.allclose(res[0].ret[k], real_np.asarray(real.halos[k], dtype=float).ravel(), rtol=2e-6), k
+            n += 1
+    return n
